@@ -447,6 +447,9 @@ Proof.
   - rewrite H3. exact H.
 Qed.
 
+Lemma inv1_set_rlast s x : Inv1 s -> Inv1 (set_rlast s x).
+Proof. intros I. destruct I. constructor; assumption. Qed.
+
 Ltac cov s0 R Icover := let r := fresh "r" in let Hr := fresh "Hr" in
   intros r Hr; apply located_frame2 with (s := s0); try reflexivity; [rewrite R; discriminate|apply Icover; exact Hr].
 
@@ -468,7 +471,7 @@ Proof.
     destruct I as [Icd Ithr Iuniq Iretry Islot Iseq Icover Iqrev Iqincr Iqunc Irhead Icompact]. rewrite R in *.
     destruct e; try (constructor; rnorm; try assumption; [cov s R Icover|discriminate]).
     destruct (latest (k_vers (s_store s (e_key node)))) as [[modrev val]|].
-    + destruct (is_empty val || negb (modrev =? e_rev node)).
+    + destruct (negb (modrev =? e_rev node)).
       * constructor; rnorm; try assumption. cov s R Icover.
       * constructor; rnorm; try assumption. cov s R Icover.
     + constructor; rnorm; try assumption. cov s R Icover.
@@ -500,7 +503,10 @@ Proof.
   - (* dispatch *)
     destruct I as [Icd Ithr Iuniq Iretry Islot Iseq Icover Iqrev Iqincr Iqunc Irhead Icompact]. rewrite R in *.
     destruct (Iretry rev eq_refl) as [Hb [Hsl Hsq]].
-    constructor; rnorm.
+    set (ev0 := mk_ev rev (e_prev node) (e_verb node) (e_key node) (e_val node) eo).
+    assert (X : forall pcx, retry_rev pcx = None -> (forall n, retry_node pcx = Some n -> n = node) ->
+                Inv1 (set_retry (set_slots s (slot_set (s_slots s) rev (Some ev0))) pcx)).
+    { intros pcx Hrv Hnd. constructor; rnorm; rewrite ?Hrv.
     + assumption.
     + intros t th r G P. destruct (Ithr t th r G P) as [? [? [Hne ?]]]. split; [assumption|]. split; [|split; [discriminate|assumption]].
       rewrite slot_set_other; [assumption|]. intros ->. apply Hne. reflexivity.
@@ -520,8 +526,12 @@ Proof.
     + assumption.
     + assumption.
     + assumption.
-    + exact Irhead.
-    + assumption.
+    + intros n E. apply Hnd in E. subst n. apply Irhead. reflexivity.
+    + assumption. }
+    destruct eo as [er|]; [destruct (is_cas er)|].
+    + apply X; [reflexivity|]. intros n E. injection E as <-. reflexivity.
+    + apply inv1_set_rlast. apply X; [reflexivity|]. intros n E. discriminate.
+    + apply X; [reflexivity|]. intros n E. injection E as <-. reflexivity.
   - (* pop *)
     destruct I as [Icd Ithr Iuniq Iretry Islot Iseq Icover Iqrev Iqincr Iqunc Irhead Icompact]. rewrite R in *.
     destruct (Irhead node eq_refl) as [t [rest Qu]]. rewrite Qu in *. cbn [pop_head].
